@@ -27,8 +27,12 @@ JudgeEnc(t, j, e) ==
   IF ~p.ok THEN TRUE                                       \* not in the X.680 grammar: nothing is claimed
   ELSE IF p.zone # "Z" THEN Chk(t, j, "NonUtcAccepted", e.st = "raise")
   ELSE IF e.st = "ok"
-       THEN /\ Chk(t, j, "NotCanonical", Canonical(e.kind, e.out))
-            /\ (IF p.ss # -1 /\ ~p.comma THEN Chk(t, j, "InstantChanged", SameInstantZ(e.kind, e.text, e.out)) ELSE TRUE)
+       THEN LET good == Canonical(e.kind, e.out) /\ (p.ss # -1 /\ ~p.comma => SameInstantZ(e.kind, e.text, e.out))
+            IN IF good THEN TRUE
+               ELSE IF ~p.comma /\ e.out = LibTimeOut(e.text) /\ LibTimeDevs(e.text) # {}
+                    THEN PrintT(<<"DEV", Traces[t].id, j, LibTimeDevs(e.text)>>)     \* exactly the known scanning defect
+               ELSE /\ Chk(t, j, "NotCanonical", Canonical(e.kind, e.out))
+                    /\ (IF p.ss # -1 /\ ~p.comma THEN Chk(t, j, "InstantChanged", SameInstantZ(e.kind, e.text, e.out)) ELSE TRUE)
        ELSE TRUE        \* refusing a UTC value is not excluded by the property (only accepting a non-UTC one is)
 
 TraceInit == tid \in 1..Len(Traces) /\ l = 0
